@@ -238,4 +238,33 @@ theorem loadDb_dumpDb (db : Db) (hok : ∀ t ∈ db.tables, tableOk (normTable t
     rfl
   rw [this, List.map_id]
 
+/-! ### index order -/
+
+theorem indexOrder_mem (n first i : Nat) (hf : first < n) (hi : i < n) : i ∈ indexOrder n first := by
+  unfold indexOrder
+  by_cases h : i = first
+  · subst h; exact List.mem_cons_self
+  · exact List.mem_cons_of_mem _ (List.mem_filter.mpr ⟨List.mem_range.mpr hi, by simpa using h⟩)
+
+theorem indexOrder_lt (n first i : Nat) (hf : first < n) (hi : i ∈ indexOrder n first) : i < n := by
+  unfold indexOrder at hi
+  rcases List.mem_cons.mp hi with rfl | h
+  · exact hf
+  · exact List.mem_range.mp (List.mem_filter.mp h).1
+
+theorem indexOrder_nodup (n first : Nat) : (indexOrder n first).Nodup := by
+  unfold indexOrder
+  refine List.nodup_cons.mpr ⟨?_, (List.nodup_range).sublist (List.filter_sublist)⟩
+  intro h
+  have := (List.mem_filter.mp h).2
+  simp at this
+
+theorem placeByIndex_aligned {α} (n first : Nat) (hf : first < n) (built : Nat → α) :
+    placeByIndex n (indexOrder n first) built = (List.range n).map fun i => some (built i) := by
+  unfold placeByIndex
+  apply List.map_congr_left
+  intro i hi
+  have hm := indexOrder_mem n first i hf (List.mem_range.mp hi)
+  simp [hm]
+
 end Gsu.Dump
